@@ -549,7 +549,8 @@ def execute_event(ev):
             from periodictable import core, mass, density
 
             def helper():
-                t = core.PeriodicTable("helper-%d" % len(core.PRIVATE_TABLES))
+                # (the first such table of an interpreter is an unnamed scratch table: '' is a table name like any other)
+                t = core.PeriodicTable("helper-%d" % len(core.PRIVATE_TABLES) if "" in core.PRIVATE_TABLES else "")
                 mass.init(t)
                 density.init(t)
                 return [t.Co, t.Co[59], t.Co.ion[2], t.Co[59].ion[2], P.formula({t.Co: 1, t.O: 3})]
